@@ -29,6 +29,8 @@ fv := {|x| x.f}
 gv := {|acc, x| acc.g(x)}
 gv2 := {|acc, x| acc + x}
 idv := {|x| x}
+pv := {|x| "CALLEE".p; 5}
+pv2 := {|acc, x| "CALLEE".p; x}
 `
 
 // a template: text with holes {i:type}; benign values per type.
@@ -78,6 +80,15 @@ func c07templates() []c07tmpl {
 	add("chain argument then call args (strict list prop)", "«0:arr»=@(«1:arr»)+(«2:int»)")
 	add("literal call body", "[1, 2]@{|x| «0:int» + x}")
 	add("var call chain arg", "«0:arr»$(«1:int»)^gv2")
+	// variable-call spellings whose callee prints and does not depend on the chain argument: a raise in the chain
+	// argument (or the receiver) ends the evaluation before any callee runs
+	for _, ch := range []string{"", "&", "~", "="} {
+		add("var call "+ch+"$ chain arg, callee ignores the accumulator", "«0:arr»"+ch+"$(«1:int»)^pv2")
+		add("var call "+ch+"@ chain arg", "«0:arr»"+ch+"@(«1:arr»)^pv")
+		add("var call "+ch+". chain arg", "«0:int»"+ch+".(«1:int»)^pv")
+		add("literal call "+ch+". chain arg", "«0:int»"+ch+".(«1:int»){|x| \"CALLEE\".p; 5}")
+		add("literal call "+ch+"@ chain arg", "«0:arr»"+ch+"@(«1:arr»){|x| \"CALLEE\".p; 5}")
+	}
 	add("if true branch", "(«1:int» if «0:true» else 3)")
 	add("if false branch", "(3 if «0:false» else «1:int»)")
 	add("if without else", "(«1:int» if «0:true»)")
